@@ -795,7 +795,10 @@ def slowreader_gen(rng, tier):
         for l in ("tcp", "tls", "gnet"):
             # (M: the in-flight cap is out of the way, every query is answered with a 6 KiB response: megabytes pile up in
             # the socket buffers and in the listener's own write queue while the client does not read - seed C13-R)
-            cfg = "U=u;E=0;S=-;R=-:0:0:0;T=1;M=4000;X=%d" % (8800 + i)
+            # N: a small so_sndbuf at the listener (back-pressure with little data); I: an idle time-out far beyond the time
+            # the client needs to drain the responses (the listener closes a connection on which no NEW query arrives for
+            # idle_timeout seconds, responses pending or not: by design, not what this kind is about)
+            cfg = "U=u;E=0;S=-;R=-:0:0:0;T=1;M=4000;N=4096;I=120;X=%d" % (8800 + i)
             name = gens.raw_name([b"slow%d" % i, rng.choice(VOCAB), b"test"])
             question = name + b"\0" + struct.pack(">HH", 16, 1)
             txt = bytes(rng.randrange(97, 123) for _ in range(250))
